@@ -147,6 +147,26 @@ def _sim_summary(res):
     }
 
 
+def locale_refusal(ctx, plan, res):
+    """The run ended in a Unicode error, the simulated locale is not UTF-8, and the inputs do
+    contain text outside ASCII (a --version-id, the user's own header, a library header): the
+    locale cannot represent the text and the tool says so loudly.  Nothing is delivered, so there
+    is nothing for C20 to object to - and nothing to compare either."""
+    if (plan["env"].get("encoding") or "utf-8") == "utf-8":
+        return False
+    if res.get("exc") not in ("UnicodeDecodeError", "UnicodeEncodeError"):
+        return False
+    sel = plan.get("selection") or {}
+    vid = sel.get("version_id")
+    if vid is not None and not str(vid).isascii():
+        return True
+    if (sel.get("user_main") or {}).get("non_ascii"):
+        return True
+    if not hasattr(ctx, "_non_ascii_headers"):
+        ctx._non_ascii_headers = bool(ctx.tree.non_ascii_headers())
+    return ctx._non_ascii_headers
+
+
 def evaluate_twin(ctx, plan, want_events=False, build=True, extra_toolchain=True):
     """Fault-free execution + build/compare oracle.  Returns (record, twin_res, twin_data)."""
     res, data = ctx.pool.run(plan, want_events=want_events, step_budget=ctx.step_budget, event_cap=ctx.event_cap)
@@ -158,6 +178,9 @@ def evaluate_twin(ctx, plan, want_events=False, build=True, extra_toolchain=True
         rec["violations"].append({"class": "GEN_HANG", "sig": signature("GEN_HANG", d), "detail": d})
         return rec, res, data
     if res["status"] != 0:
+        if locale_refusal(ctx, plan, res):
+            rec["outcome"] = "locale_cannot_represent_the_text"
+            return rec, res, data
         d = {"exc": res["exc"], "tb_tail": res["tb_tail"], "status": res["status"], "stderr_tail": res["stderr_tail"][-300:]}
         rec["violations"].append({"class": "GEN_FAIL", "sig": signature("GEN_FAIL", d), "detail": d})
         return rec, res, data
@@ -190,6 +213,9 @@ def evaluate_faulty(ctx, fplan, twin_res, twin_data, want_events=False):
     if res["status"] != 0:
         if unh:
             rec["outcome"] = "loud_failure"
+            return rec
+        if locale_refusal(ctx, fplan, res):
+            rec["outcome"] = "locale_cannot_represent_the_text"
             return rec
         d = {"exc": res["exc"], "tb_tail": res["tb_tail"], "status": res["status"], "delivered": res["delivered"], "stderr_tail": res["stderr_tail"][-300:]}
         rec["violations"].append({"class": "GEN_FAIL", "sig": signature("GEN_FAIL", d), "detail": d})
